@@ -133,6 +133,8 @@ func encodeBody(side string, handle uint32, p []byte) ([]byte, error) {
 
 // split cuts b into n non-empty parts: at seeded positions ("any"), evenly, or with a first /
 // last part of 1-2 bytes next to parts that are as large as the others allow.
+const maxPart = 16000 // receive buffer of the rigs (16384) minus headers, padding and signature
+
 func split(b []byte, n int, rnd *rand.Rand, shape string) [][]byte {
 	if n <= 1 || len(b) < n {
 		return [][]byte{b}
@@ -179,6 +181,13 @@ func split(b []byte, n int, rnd *rand.Rand, shape string) [][]byte {
 			}
 		}
 	}
+	// a conforming sender keeps every chunk within the receiver's buffer: cut evenly when the shape
+	// would need a larger part
+	for _, sz := range sizes {
+		if sz > maxPart && shape != "even" {
+			return split(b, n, rnd, "even")
+		}
+	}
 	// whatever is left over goes to the largest part
 	sum, big := 0, 0
 	for i, sz := range sizes {
@@ -202,7 +211,7 @@ func split(b []byte, n int, rnd *rand.Rand, shape string) [][]byte {
 func runBehRef(b *Beh) runResult {
 	first := uint32(int32(b.Sp.First))
 	off := uint32(0)
-	o := rigOpts{Policy: b.Policy, Mode: b.Mode, Side: b.Side, MaxChunks: b.MaxChunks}
+	o := rigOpts{Policy: b.Policy, Mode: b.Mode, Side: b.Side, MaxChunks: b.MaxChunks, MaxMsgSize: b.MaxMsg}
 	if b.Side == "client" && b.Sp.First == 2 {
 		// the server's OPN response carries 101; the stream continues with the next number
 		off = 100
@@ -243,11 +252,23 @@ func runBehRef(b *Beh) runResult {
 			psz = 3000 + rnd.Intn(9000) // large parts next to the tiny one
 		}
 		p := payload(uint32(m+1), psz, vfgo.Seed()+b.Salt)
-		bi.digs[m+1] = dig(p)
 		body, err := encodeBody(b.Side, 500+uint32(m), p)
 		if err != nil {
 			return runResult{status: "inconclusive", detail: "encode: " + err.Error()}
 		}
+		if pm.Sz != "" && pm.Sz != "small" {
+			// a body of exactly the size the plan names, relative to the negotiated MaxMessageSize
+			limit := int(b.MaxMsg)
+			if limit == 0 {
+				return runResult{status: "inconclusive", detail: "size class without a negotiated MaxMessageSize"}
+			}
+			target := map[string]int{"near": limit * 9 / 10, "limit": limit, "over": limit + 1}[pm.Sz]
+			p = payload(uint32(m+1), psz+target-len(body), vfgo.Seed()+b.Salt)
+			if body, err = encodeBody(b.Side, 500+uint32(m), p); err != nil || len(body) != target {
+				return runResult{status: "inconclusive", detail: fmt.Sprintf("could not build a body of %d bytes (got %d, %v)", target, len(body), err)}
+			}
+		}
+		bi.digs[m+1] = dig(p)
 		nb := pm.N
 		if pm.Ab {
 			nb = pm.N - 1
